@@ -1,13 +1,15 @@
 #!/usr/bin/env python3
 """lib/seedflow.py <ID> <mN> <check ids...>
-Confirms a seeded change delivered under /tmp/seed/<ID>/out/<mN>/ in a fresh scratch worktree
+Confirms a seeded change delivered under $SEED_ROOT/<ID>/out/<mN>/ in a fresh scratch worktree
 (demo passes without the change; with it the existing suite still passes and the demo
 fails), rehearses the given checks against it (lib/mutcheck.py) and stores it as
 /verif/seeded/<ID>-<mN>/ with the results in meta.json."""
 import json, os, shutil, subprocess, sys, tempfile, glob
 V = os.path.dirname(os.path.dirname(os.path.abspath(__file__)))
 pid, m, checks = sys.argv[1], sys.argv[2], sys.argv[3:]
-src = "/tmp/seed/%s/out/%s" % (pid, m)
+ROOT = os.environ.get("SEED_ROOT", "/tmp/seed2")
+TAG = os.environ.get("SEED_TAG", "r2")
+src = "%s/%s/out/%s" % (ROOT, pid, m)
 ENV = dict(os.environ, GOFLAGS="-mod=mod", GOPROXY="off", GOSUMDB="off", GOTOOLCHAIN="local")
 def sh(cmd, cwd):
     p = subprocess.run(cmd, cwd=cwd, env=ENV, shell=True, capture_output=True, text=True)
@@ -18,6 +20,7 @@ res = {}
 try:
     subprocess.run(["git", "-C", "/repo", "worktree", "add", "--detach", "-q", wt, "HEAD"], check=True)
     demos = [f for f in os.listdir(src) if f.endswith(".go")]
+    needs_race = "-race" in open(os.path.join(src, "meta.json")).read() if os.path.exists(os.path.join(src, "meta.json")) else False
     def place():
         for d in demos:
             if d.endswith("_test.go"):
@@ -29,7 +32,7 @@ try:
         out = []
         rc = 0
         if any(d.endswith("_test.go") for d in demos):
-            r, o = sh("go test -vet=off -count=1 ./jen 2>&1 | tail -15", wt); out.append(o)
+            r, o = sh(("CGO_ENABLED=1 go test -race" if needs_race else "go test") + " -vet=off -count=1 ./jen 2>&1 | tail -15", wt); out.append(o)
             rc |= 0 if ("ok " in o and "FAIL" not in o) else 1
         if any(not d.endswith("_test.go") for d in demos):
             r, o = sh("go run ./zzdemo 2>&1 | tail -15; exit ${PIPESTATUS[0]}", wt); out.append(o); rc |= (1 if r else 0)
@@ -54,7 +57,7 @@ if not ok:
 mc = subprocess.run([sys.executable, os.path.join(V, "lib", "mutcheck.py"), os.path.join(src, "patch.diff")] + checks,
                     capture_output=True, text=True)
 print(mc.stdout[-6000:], mc.stderr[-1000:])
-dst = os.path.join(V, "seeded", "%s-%s" % (pid, m))
+dst = os.path.join(V, "seeded", "%s-%s%s" % (pid, TAG, m))
 os.makedirs(dst, exist_ok=True)
 for f in os.listdir(src):
     shutil.copy(os.path.join(src, f), os.path.join(dst, f))
